@@ -177,10 +177,10 @@ def run_check(mod, tier, seed, workers=None, replay=None, max_cases=None):
             fresh.append((idx, case, v))
 
     reason, extra = mod.conclude(agg)
-    if agg.errors and reason is None:
+    if agg.errors:
         kinds = sorted({e[2] for e in agg.errors})
         reason = "%d case(s) did not complete (%s): %s" % (
-            len(agg.errors), ",".join(kinds), short(agg.errors[0][3], 600))
+            len(agg.errors), ",".join(kinds), agg.errors[0][3][-900:])
 
     wall = time.time() - t0
     coverage = {
